@@ -26,9 +26,9 @@ THEOREMS = ['Props.C17.' + t for t in [
     'column_name_from_number_total', 'node_name_from_number_total', 'layer_name_from_number_total',
     'column_name_from_number_injective', 'node_name_from_number_injective', 'layer_name_from_number_injective',
     'new_dict_key_fresh', 'new_node_name_fresh',
-    'add_layers_names',
+    'add_layers_names', 'uniqstring_alphabet',
     'block_name_invertible', 'block_name_injective',
-    'rectangular_names_distinct', 'rectangular_block_names_distinct', 'rectangular_error_is_naming',
+    'rectangular_names_distinct', 'rectangular_block_names_distinct', 'rectangular_error_is_naming', 'rectangular_alphabet',
     'fix_idempotent', 'unfix_is_simulator_form', 'name_cycle_stabilises', 'unfix_cycle_stabilises',
 ]]
 LEVEL_TEXT = ('Proof: Lean theorems about a character-exact model of the naming code of mulgrids.py: int_to_chars is injective with '
@@ -272,20 +272,22 @@ def facet_numbers(ctx, R, res, rng, alphas):
     itc = R.m.int_to_chars
     # int_to_chars itself
     for label, chars in alphas:
+        n = len(chars)
         for spaces, length in [(True, 0), (True, 3), (False, 2), (False, 3), (False, 0)]:
-            if not ctx.quick or label in ('lower', 'ab', 'random') or (spaces and length == 0):
-                seen = {}
-                for i in range(N + 1):
-                    r = call(itc, i, '', chars, spaces, length)
-                    B.add('itc %d x %s %s %d' % (i, hx(chars), b(spaces), length), 'str', r, {'fn': 'int_to_chars', 'i': i, 'chars': chars, 'spaces': spaces, 'length': length})
-                    if r[0] == 'ok' and (spaces or length):
-                        # injectivity (property: generated names are distinct); without padding and spaces i=0 and '' coincide only at 0
-                        if r[1] in seen:
-                            res.violations.append(dict(key='int_to_chars-duplicate', what='int_to_chars gives %r for %d and %d (chars=%r, spaces=%s, length=%d)'
-                                                       % (r[1], seen[r[1]], i, chars, spaces, length),
-                                                       case={'fn': 'int_to_chars', 'i': i, 'j': seen[r[1]], 'chars': chars, 'spaces': spaces, 'length': length}))
-                        seen[r[1]] = i
-                res.count('int_to_chars:%s:%s' % ('spaces' if spaces else 'nospaces', label), N + 1)
+            # quick tier: all of 0..20000 for the default alphabet; for the others up to their 3-character capacity + 300
+            nmax = N if (not ctx.quick or label == 'lower') else min(N, sum(n ** k for k in range(1, 4)) + 300)
+            seen = {}
+            for i in range(nmax + 1):
+                r = call(itc, i, '', chars, spaces, length)
+                B.add('itc %d x %s %s %d' % (i, hx(chars), b(spaces), length), 'str', r, {'fn': 'int_to_chars', 'i': i, 'chars': chars, 'spaces': spaces, 'length': length})
+                if r[0] == 'ok' and (spaces or length):
+                    # injectivity (property: generated names are distinct)
+                    if r[1] in seen:
+                        res.violations.append(dict(key='int_to_chars-duplicate', what='int_to_chars gives %r for %d and %d (chars=%r, spaces=%s, length=%d)'
+                                                   % (r[1], seen[r[1]], i, chars, spaces, length),
+                                                   case={'fn': 'int_to_chars', 'i': i, 'j': seen[r[1]], 'chars': chars, 'spaces': spaces, 'length': length}))
+                    seen[r[1]] = i
+            res.count('int_to_chars:%s:%s' % ('spaces' if spaces else 'nospaces', label), nmax + 1)
         B.flush(ctx)
     # degenerate alphabets (exception classes)
     for chars in ['', 'a']:
@@ -314,12 +316,17 @@ def facet_numbers(ctx, R, res, rng, alphas):
                     if numeric and not spaces:
                         continue
                     for left in (False, True):
-                        full = (not ctx.quick) or (op == 'cnn' and conv == 0) or label in ('lower', 'ab') or (label == 'random' and op == 'lnn')
-                        if ctx.quick and op in ('nnn', 'ncn') and label != 'lower':
+                        if ctx.quick and op == 'ncn' and (label != 'lower' or left or conv in (2, 3)):
                             continue
-                        if ctx.quick and op == 'cnn' and conv == 3 and label not in ('lower', 'random'):
-                            continue
-                        nmax = N if full else 800
+                        if ctx.quick and op == 'nnn' and (label != 'lower' or left):
+                            continue                         # same body as column_name_from_number
+                        n = len(chars)
+                        L = g.layername_length if op == 'lnn' else g.colname_length
+                        cap = 10 ** L if numeric else sum(n ** k for k in range(1, L + 1))
+                        # quick tier: all of 0..20000 for the default alphabet (and the upper-case one for columns);
+                        # for the other alphabets up to the capacity + 300 (everything beyond is the naming error)
+                        full = (not ctx.quick) or label == 'lower' or (label == 'upper' and op == 'cnn' and conv == 0 and not left)
+                        nmax = N if full else min(N, cap + 300)
                         names, first_exc = [], None
                         for k in range(nmax + 1):
                             r = call(f, k, R.justfn(left), chars, spaces)
